@@ -1,13 +1,18 @@
 (* C01 — the generic lemmas instantiated with what the translator read from /repo (Gen_resolve.v).
    If the except clause of resolve_entity stops naming ValueError or OverflowError this file no longer compiles. *)
 From Coq Require Import List NArith ZArith Bool Lia.
-From MW Require Import Common.Str C01.Model C01.Proofs C01.Gen_resolve.
+From MW Require Import Common.Str C01.Model C01.Proofs C01.Gen_resolve C01.Gen_path.
 Import ListNotations.
 
 Lemma gen_catches_value : In EValue caught_numeric.
 Proof. cbn. tauto. Qed.
 Lemma gen_catches_overflow : In EOverflow caught_numeric.
 Proof. cbn. tauto. Qed.
+
+(* the cut of compute_path read from styleanalyzer.py (Gen_path.v) is the 32 of the model's `prune`; with another value this
+   file no longer compiles and C01_compute_path_bounded (192 = 6*32 states per step) is not claimed for the code *)
+Lemma gen_cut_is_modelled : src_cut_limit = 32.
+Proof. reflexivity. Qed.
 
 Lemma resolve_entity_total_gen :
   forall (pyint : Z -> str -> option Z) (name2cp : str -> option Z),
